@@ -124,17 +124,40 @@ def _history_job(job):
     return {"runs": out}
 
 
-def _fresh_digests(docs_file, out_file):
+def _one_digest(d):
+    try:
+        results, _ = _extract(d)
+        return d["id"], _digest(results)
+    except Exception as e:
+        return d["id"], f"EXC:{type(e).__name__}"
+
+
+def _fresh_digests(docs_file, out_file, mode="seq"):
+    """mode seq: all documents one after the other in THIS process, in an order derived from PYTHONHASHSEED
+    (0: as listed, 1: reversed, other: shuffled) -- history-dependent state shows up as a digest change.
+    mode iso: every document in its own freshly forked child (isolated baseline)."""
     docs = json.loads(Path(docs_file).read_text())
-    res = {}
     for d in docs:
         if "data_hex" in d:
             d["data"] = bytes.fromhex(d.pop("data_hex"))
-        try:
-            results, _ = _extract(d)
-            res[d["id"]] = _digest(results)
-        except Exception as e:
-            res[d["id"]] = f"EXC:{type(e).__name__}"
+    res = {}
+    if mode == "iso":
+        from ..repo import activate
+        activate()
+        import multiprocessing
+        import sharepoint2text  # noqa: imported before forking, nothing extracted yet
+        with multiprocessing.get_context("fork").Pool(processes=8, maxtasksperchild=1) as pool:
+            res = dict(pool.map(_one_digest, docs, chunksize=1))
+    else:
+        seed = int(os.environ.get("PYTHONHASHSEED", "0") or 0)
+        order = list(docs)
+        if seed == 1:
+            order.reverse()
+        elif seed not in (0, 1):
+            random.Random(seed).shuffle(order)
+        for d in order:
+            k, v = _one_digest(d)
+            res[k] = v
     Path(out_file).write_text(json.dumps(res))
 
 
@@ -179,6 +202,10 @@ def run(ctx):
     docs = []
     for f in RICH_FORMATS:
         docs.append({"id": f"gen:{f}", "fmt": f, "data": render(rich_doc(f, ctx.seed), f), "type": f})
+    plain = rich_doc("pptx", ctx.seed)
+    for sl in plain["slides"]:
+        sl["comments"] = []
+    docs.append({"id": "gen:pptx-plain", "fmt": "pptx", "data": render(plain, "pptx"), "type": "pptx"})
     fixtures = _fixtures()
     if not ctx.thorough:
         rng.shuffle(fixtures)
@@ -207,6 +234,12 @@ def run(ctx):
         procs.append((s, out, subprocess.Popen([PY, "-m", "mbv.props.c06", "fresh", str(docs_file), str(out)],
                                                env=child_env({"PYTHONHASHSEED": str(s)}), cwd=str(VERIF),
                                                stderr=subprocess.PIPE, text=True)))
+    iso_out = ctx.scratch / "iso.json"
+    pi = subprocess.run([PY, "-m", "mbv.props.c06", "fresh", str(docs_file), str(iso_out), "iso"],
+                        env=child_env({"PYTHONHASHSEED": "0"}), cwd=str(VERIF), capture_output=True, text=True, timeout=1200)
+    if pi.returncode != 0:
+        raise MachineryError(f"isolated-baseline worker failed:\n{pi.stderr[-1500:]}")
+    iso = json.loads(iso_out.read_text())
     fresh = {}
     for s, out, p in procs:
         _, se = p.communicate(timeout=1200)
@@ -222,11 +255,11 @@ def run(ctx):
             ev.sample({"doc": d["id"], "skipped": res["exc"]})
             continue
         for n, ((d0, evs), h) in enumerate(zip(res["runs"], hs)):
-            ids = {d0: 0}
+            ids = {iso.get(d["id"], d0): 0}        # id 0 = digest of the isolated extraction (own fresh child)
 
             def did(x):
                 return ids.setdefault(x, len(ids))
-            tev = []
+            tev = [{"a": "Reextract", "m": "pool", "s": 0, "d": did(d0)}]   # first extraction in a reused worker
             for e in evs:
                 if e[0] == "Input":
                     tev.append({"a": "Input", "same": bool(e[1])})
@@ -277,4 +310,4 @@ def run(ctx):
 
 if __name__ == "__main__":
     if sys.argv[1] == "fresh":
-        _fresh_digests(sys.argv[2], sys.argv[3])
+        _fresh_digests(sys.argv[2], sys.argv[3], sys.argv[4] if len(sys.argv) > 4 else "seq")
